@@ -208,7 +208,8 @@ KF_UpdatePartial(t) == t.ev = "ret:UpdateTablePlayers" /\ t.res # "ok" /\ Len(t.
 
 \* conformance of the opened snapshot with the transcription of calcGamePlayerIndexes / updatePlayerPositions (DRIFT only)
 PositionsConform(t) ==
-  (IsOpenSnap(t) /\ t.st.rule # "short_deck" /\ C03_bijection(t.st) /\ C03_smAgree(t.st)) =>
+  \* (the transcription knows hands of two or more position slots; a hand opened with fewer is C05_dealtIn's matter)
+  (IsOpenSnap(t) /\ t.st.rule # "short_deck" /\ C03_bijection(t.st) /\ C03_smAgree(t.st) /\ SlotCount(SmOf(t.st)) >= 2) =>
     LET st == t.st  m == SmOf(st)  gseats == GameSeats(m)  lab == CodeLabels(m) IN
     /\ [i \in 1..Len(st.gpi) |-> st.players[st.gpi[i] + 1].seat] = gseats
     /\ \A i \in 1..Len(st.players) : Range(st.players[i].pos) = lab[st.players[i].seat]
